@@ -72,7 +72,7 @@ def run(ctx):
                     construct=f'cls({p}=...)')
     # "the output has the input's ... polarisation/antenna counts": these two counts come from the antenna source, so a
     # source that disagrees with the recording must be rejected (the bytes would otherwise be silently reinterpreted)
-    rets = [e for e in I.events if e.kind == 'return' and e.func.short == fd.short]
+    rets = [e for e in I.events if e.kind == 'return' and e.owner == fd.short]
     ctx.require(rets, 'from_data no longer returns the backend')
 
     def conj(c):
@@ -95,14 +95,14 @@ def run(ctx):
         ctx.ob('GUARDDOM', f'from_data returns a backend only if the antenna source\'s {cnt} equals the input recording\'s', fd,
                any(is_eq(c) for c in conds), {'path_condition_of_return': [pretty(c)[:140] for c in conds]}, node=rets[-1].node,
                construct=f'from_data: {cnt} of the source vs the input')
-    nb_st = [e for e in I.events if e.kind == 'store' and e.data.get('name') == 'num_bits' and e.func.short == fd.short]
+    nb_st = [e for e in I.events if e.kind == 'store' and e.data.get('name') == 'num_bits' and e.owner == fd.short]
     objs = sorted({ast.unparse(e.data['base_node']) for e in nb_st})
     ctx.ob('AGREE', 'the complex requantiser and both of its component quantisers get the input bit depth', fd,
            len(nb_st) == 3 and len(objs) == 3 and all(e.data['value'].key == T.mk_sub(RP, lift('num_bits')).key for e in nb_st),
            {'stores': [e.text() for e in nb_st]}, node=(nb_st[0].node if nb_st else fd.node), construct='num_bits of requantizer / _r / _i')
     for attr, want in (('input_file_stem', sym('input_file_stem')),
                        ('input_num_blocks', T.mk_call(RU + 'get_total_blocks', [sym('input_file_stem')]))):
-        st = [e for e in I.events if e.kind == 'store' and e.data.get('name') == attr and e.func.short == fd.short]
+        st = [e for e in I.events if e.kind == 'store' and e.data.get('name') == attr and e.owner == fd.short]
         ctx.require(st, f'from_data no longer stores backend.{attr}')
         ctx.formula('AGREE', f'backend.{attr} describes the input recording', fd, st[-1].data['value'], want, node=st[-1].node)
 
@@ -172,7 +172,7 @@ def run(ctx):
     r, I = ctx.run(cdb, heap={'num_bits': lift(8), 'input_file_stem': lift('stem')}, args={'digitize': TRUE, 'requantize': TRUE},
                    no_inline=(B + '._read_next_block',), expand=False, max_depth=0)
     tm = [e for e in I.events if e.kind == 'store' and e.data.get('target') == 'attr' and e.data.get('name') == 'target_mean'
-          and e.func.short == cdb.short]
+          and e.owner == cdb.short]
     q = [e for e in I.events if e.kind == 'call' and e.data.get('name') == '.quantize' and any(k == 'custom_stds' for k, _ in e.data['kwargs'])]
     ctx.require(q, 'collect_data_block: the synthetic requantisation with custom deviations was not found')
     for comp in ('quantizer_r', 'quantizer_i'):
